@@ -12,6 +12,8 @@ import (
 	"strings"
 	"time"
 
+	"github.com/cockroachdb/pebble/vfs"
+
 	"github.com/LiskHQ/lisk-engine/pkg/blockchain"
 	"github.com/LiskHQ/lisk-engine/pkg/codec"
 	"github.com/LiskHQ/lisk-engine/pkg/consensus"
@@ -228,13 +230,15 @@ func genSel(o *hx.Out, r *hx.Rng, n int) {
 // ---------------------------------------------------------------------------------------- generator info
 
 type genEv struct {
-	Op    string    `json:"op"`              // forge | tip | sync | restart
-	T     [2]uint32 `json:"t,omitempty"`     // tip: state maxHeightPrevoted, height
-	On    bool      `json:"on,omitempty"`    // sync: syncing on / off
-	After uint32    `json:"after,omitempty"` // forge: state maxHeightPrevoted after the generated block (when it gets applied)
-	Lost  bool      `json:"lost,omitempty"`  // forge: the process dies between persist and hand-off
-	Drop  bool      `json:"drop,omitempty"`  // forge: the handed-over block is not processed (busy executer / full queue)
-	Who   int       `json:"who"`             // forge: index of the enabled generator key whose slot it is
+	Op    string       `json:"op"`              // forge | tip | sync | restart
+	T     [2]uint32    `json:"t,omitempty"`     // tip: state maxHeightPrevoted, height
+	On    bool         `json:"on,omitempty"`    // sync: syncing on / off
+	After uint32       `json:"after,omitempty"` // forge: state maxHeightPrevoted after the generated block (when it gets applied)
+	Lost  bool         `json:"lost,omitempty"`  // forge: the process dies between persist and hand-off
+	Drop  bool         `json:"drop,omitempty"`  // forge: the handed-over block is not processed (busy executer / full queue)
+	Abort bool         `json:"abort,omitempty"` // forge: the tick dies before anything is persisted (here: the application fails Commit)
+	All   []*[3]uint32 `json:"all,omitempty"`   // powerloss: the generator DB records of all keys after power loss and reopen
+	Who   int          `json:"who"`             // forge: index of the enabled generator key whose slot it is
 	// observation (forge)
 	Forged bool       `json:"forged"`
 	Hdr    [3]uint32  `json:"hdr"`              // height, maxHeightPrevoted, maxHeightGenerated
@@ -338,7 +342,25 @@ func runGen(rec genRec) genRec {
 		return rec
 	}
 	defer env.node.DB.Close()
-	defer env.gdb.Close()
+	// the generator DB lives on a strict in-memory file system: what was not synced is lost at a power loss
+	_ = env.gdb.Close()
+	mem := vfs.NewStrictMem()
+	if err := mem.MkdirAll("gen", 0o755); err != nil {
+		rec.Fail = "mkdir: " + err.Error()
+		return rec
+	}
+	for _, root := range []string{"/", ""} {
+		if d, err := mem.OpenDir(root); err == nil {
+			_ = d.Sync()
+			_ = d.Close()
+		}
+	}
+	env.gdb, err = db.VerifC13OpenFS(mem, "gen")
+	if err != nil {
+		rec.Fail = "open generator db: " + err.Error()
+		return rec
+	}
+	defer func() { _ = env.gdb.Close() }()
 	tip := rec.T0
 	syncing := false
 	// ONE Generator object lives across the forges (whatever it keeps in memory stays), a restart builds a new one
@@ -375,13 +397,31 @@ func runGen(rec genRec) genRec {
 				rec.Fail = "generator init: " + err.Error()
 				return rec
 			}
+		case "powerloss":
+			// the machine loses power: everything not synced to disk is gone; the old handle is abandoned, not closed
+			syncing = false
+			mem.ResetToSyncedState()
+			env.gdb, err = db.VerifC13OpenFS(mem, "gen")
+			if err != nil {
+				rec.Fail = "reopen generator db: " + err.Error()
+				return rec
+			}
+			if err := start(); err != nil {
+				rec.Fail = "generator init: " + err.Error()
+				return rec
+			}
+			ev.All = nil
+			for _, v := range env.node.Vals {
+				info, _, _ := g.VerifC15StoredInfo(v.Addr)
+				ev.All = append(ev.All, info3(info))
+			}
 		case "forge":
 			if ev.Who < 0 || ev.Who >= len(env.node.Vals) {
 				rec.Fail = "who out of range"
 				return rec
 			}
 			who := env.node.Vals[ev.Who]
-			for attempt := 0; attempt < 2 && !ev.Forged && ev.Panic == ""; attempt++ {
+			for attempt := 0; attempt < 6 && !ev.Forged && ev.Panic == ""; attempt++ {
 				now := uint32(time.Now().Unix())
 				slot := env.node.Exec.GetSlotNumber(now)
 				prevSlotTime := env.node.Exec.GetSlotTime(slot - 1)
@@ -394,6 +434,11 @@ func runGen(rec genRec) genRec {
 					return rec
 				}
 				cons.mhp, cons.syncing, cons.who = tip[0], syncing, who
+				if ev.Abort {
+					env.node.ABI.S = &exh.Script{FailCommit: true}
+				} else {
+					env.node.ABI.S = nil
+				}
 				cons.onAdd = func(b *blockchain.Block) {
 					ev.Forged = true
 					ev.Hdr = [3]uint32{b.Header.Height, b.Header.MaxHeightPrevoted, b.Header.MaxHeightGenerated}
@@ -450,6 +495,9 @@ func genGen(o *hx.Out, r *hx.Rng, n int) {
 	// two keys on one node: B generates 12; restart and switch to a better shorter chain; A generates 10; B's slot at 11
 	o.Put(runGen(genRec{T0: [2]uint32{5, 11}, Evs: []genEv{{Op: "forge", Who: 1, After: 5}, {Op: "restart"}, {Op: "tip", T: [2]uint32{5, 9}},
 		{Op: "forge", Who: 0, After: 5}, {Op: "forge", Who: 1, After: 5}}}))
+	// power loss right after a hand-off: the record of the handed-on header must have been durable
+	o.Put(runGen(genRec{T0: [2]uint32{4, 20}, Evs: []genEv{{Op: "forge", Who: 0, After: 4}, {Op: "powerloss"}, {Op: "forge", Who: 0, After: 4, Drop: true}, {Op: "powerloss"},
+		{Op: "forge", Who: 1, After: 4}}}))
 	// two keys alternating without a restart
 	o.Put(runGen(genRec{T0: [2]uint32{2, 7}, Evs: []genEv{{Op: "forge", Who: 0, After: 2}, {Op: "forge", Who: 1, After: 2}, {Op: "forge", Who: 0, After: 3},
 		{Op: "forge", Who: 2, After: 3}, {Op: "forge", Who: 1, After: 3}}}))
@@ -472,8 +520,11 @@ func genGen(o *hx.Out, r *hx.Rng, n int) {
 			switch r.Intn(12) {
 			case 0, 1, 2, 3, 4, 5:
 				ev := genEv{Op: "forge", After: bump(cur[0], r.Intn(2)), Lost: r.Intn(7) == 0, Drop: r.Intn(7) == 0, Who: []int{0, 0, 1, 1, 2}[r.Intn(5)]}
+				if r.Intn(9) == 0 {
+					ev.Abort, ev.Lost, ev.Drop = true, false, false
+				}
 				rec.Evs = append(rec.Evs, ev)
-				if !ev.Lost && !ev.Drop && cur[1] < 0xfffffff8 {
+				if !ev.Lost && !ev.Drop && !ev.Abort && cur[1] < 0xfffffff8 {
 					cur = [2]uint32{ev.After, cur[1] + 1} // as if it forged; runGen moves the real tip only when it did
 				}
 			case 6: // valid block of someone else on top
@@ -497,7 +548,7 @@ func genGen(o *hx.Out, r *hx.Rng, n int) {
 			case 9:
 				rec.Evs = append(rec.Evs, genEv{Op: "sync", On: r.Intn(2) == 0})
 			case 10:
-				rec.Evs = append(rec.Evs, genEv{Op: "restart"})
+				rec.Evs = append(rec.Evs, genEv{Op: []string{"restart", "powerloss"}[r.Intn(2)]})
 			default: // same tip again (tie break keeps the key)
 				rec.Evs = append(rec.Evs, genEv{Op: "tip", T: cur})
 			}
